@@ -3,7 +3,7 @@
    sequential state machine; compile and collectIDs are Section variables = per-case oracles),
    LS/Position.v (resolvePosition and the outgoing UTF-16 positions). *)
 From Coq Require Import List ZArith Bool.
-From TM Require Import Lex.Tables Util.LineCol Util.LineCol_proofs LS.Position LS.Position_proofs LS.Server LS.Server_proofs LS.Async LS.Async_proofs.
+From TM Require Import Lex.Tables Util.LineCol Util.LineCol_proofs LS.Position LS.Position_proofs LS.Server LS.Server_proofs LS.Async LS.Async_proofs LS.Async_resp_proofs LS.Position_pair_proofs.
 Import ListNotations.
 
 (* async_is_sequential. For ANY server (state, micro-steps of each handler body, reply value), any request
@@ -92,6 +92,67 @@ Theorem C23_same_name_locations :
     id_text content i = id_text content cur /\ x = location doc content i.
 Proof. intro collect_ids. exact (same_name_locations (fun _ => []) collect_ids). Qed.
 
+(* ---- round 2 ---- *)
+
+(* exactly one response per call. For ANY server, request list and schedule of the modelled chain, at EVERY
+   reachable configuration the response to request i has been written exactly once if goroutine i is Done
+   and not at all otherwise (so never twice); hence once every request is answered the trace holds exactly
+   one response per request and none for any other id. *)
+Theorem C23_response_written_once_iff_done :
+  forall (St Req Out Val : Type) (body : Req -> list (micro St Out)) (resp : Req -> St -> Val) reqs s0 c,
+  reachable St Req Out Val body resp reqs s0 c ->
+  forall i, count_resp Out Val i (trace _ _ _ c) = if is_done St Out Val (g _ _ _ c i) then 1%nat else 0%nat.
+Proof. exact response_count. Qed.
+
+Theorem C23_exactly_one_response_per_call :
+  forall (St Req Out Val : Type) (body : Req -> list (micro St Out)) (resp : Req -> St -> Val) reqs s0 c,
+  reachable St Req Out Val body resp reqs s0 c ->
+  (forall i, (i < length reqs)%nat -> g _ _ _ c i = Done St Out Val) ->
+  (forall i, (i < length reqs)%nat -> count_resp Out Val i (trace _ _ _ c) = 1%nat) /\
+  (forall i, (length reqs <= i)%nat -> count_resp Out Val i (trace _ _ _ c) = 0%nat).
+Proof. exact exactly_one_response. Qed.
+
+(* ... and the chain cannot get stuck before that: every reachable configuration is either final (all requests
+   arrived and answered) or has an enabled step. Under any fair scheduler every call therefore gets its single
+   response. (Fairness of the Go scheduler and of the connection's read loop is assumed, not modelled.) *)
+Theorem C23_chain_never_deadlocks :
+  forall (St Req Out Val : Type) (body : Req -> list (micro St Out)) (resp : Req -> St -> Val) reqs s0 c,
+  reachable St Req Out Val body resp reqs s0 c ->
+  (arrived _ _ _ c = length reqs /\ forall i, (i < length reqs)%nat -> g _ _ _ c i = Done St Out Val) \/
+  exists c', step St Req Out Val body resp reqs c c'.
+Proof. exact progress. Qed.
+
+(* incoming positions beyond the BMP. After n bytes of whole runes of the line comes a rune above U+FFFF (two
+   UTF-16 code units): the column pointing BETWEEN its two code units is rejected, whatever precedes it ... *)
+Theorem C23_position_inside_surrogate_pair_rejected :
+  forall s n, line_boundary s n ->
+  forall r w, decode_rune (skipn n s) = (r, w) -> (0 < w)%nat -> 65535 < r ->
+  forall fuel1 fuel2 pos, (n < fuel1)%nat -> (n < fuel2)%nat ->
+  skip_cols fuel2 s (utf16_len fuel1 s (Z.of_nat n) + 1) pos = None.
+Proof. exact skip_cols_inside_pair. Qed.
+
+(* ... and the column two units further is the rune boundary after it: it is accepted, resolves to the byte
+   offset after the rune, and is exactly the UTF-16 length the server reports for that offset. *)
+Theorem C23_position_after_surrogate_pair :
+  forall s n, line_boundary s n ->
+  forall r w, decode_rune (skipn n s) = (r, w) -> (0 < w)%nat -> 65535 < r ->
+  forall fuel1 fuel2 pos, (n + w < fuel1)%nat -> (n + w < fuel2)%nat ->
+  line_boundary s (n + w) /\
+  utf16_len fuel1 s (Z.of_nat (n + w)) = utf16_len fuel1 s (Z.of_nat n) + 2 /\
+  skip_cols fuel2 s (utf16_len fuel1 s (Z.of_nat n) + 2) pos = Some (pos + Z.of_nat (n + w)).
+Proof. exact skip_cols_after_pair. Qed.
+
+(* didClose, re-open and several documents are inside C23_definition_uses_latest / diagnostics_in_order (the
+   history is arbitrary; `latest` forgets a document at RClose and takes the new content at the next ROpen,
+   per document key). Non-vacuity: document 0 closed and re-opened with other content while document 1 stays. *)
+Example C23_close_reopen_two_documents :
+  let t0 := [97; 98] in let t1 := [99; 100; 32; 99; 100] in let t2 := [32; 32; 97; 98] in
+  run (fun _ => []) (fun c => match c with 97 :: _ => [mkId 0 2 1 true] | 99 :: _ => [mkId 0 2 1 true; mkId 3 5 1 false] | _ => [mkId 2 4 1 true] end) []
+      [ROpen 0 1 t0; ROpen 1 1 t1; RDef 1 0 0 1; RClose 0; RDef 2 0 0 1; RDef 3 1 0 4; ROpen 0 2 t2; RDef 4 0 0 3; RDef 5 0 0 1]
+  = [Publish 0 1 []; Publish 1 1 []; Reply 1 (Some [(0, 0, 0, 0, 2)]); Reply 2 None;
+     Reply 3 (Some [(1, 0, 0, 0, 2)]); Publish 0 2 []; Reply 4 (Some [(0, 0, 2, 0, 4)]); Reply 5 (Some [])].
+Proof. vm_compute. reflexivity. Qed.
+
 (* non-vacuity: "é😀 ab": the offset after the astral rune is a line boundary; positions round-trip *)
 Example C23_examples :
   let text := [97; 10; 195; 169; 240; 159; 152; 128; 32; 97; 98] (* "a\né😀 ab" *) in
@@ -118,3 +179,8 @@ Print Assumptions C23_pinned_outgoing_positions_refuted.
 Print Assumptions C23_diagnostics_in_order_with_version.
 Print Assumptions C23_definition_uses_latest.
 Print Assumptions C23_same_name_locations.
+Print Assumptions C23_response_written_once_iff_done.
+Print Assumptions C23_exactly_one_response_per_call.
+Print Assumptions C23_chain_never_deadlocks.
+Print Assumptions C23_position_inside_surrogate_pair_rejected.
+Print Assumptions C23_position_after_surrogate_pair.
